@@ -6,23 +6,60 @@ from ..framework import Exploration, Violation
 
 ASSUMPTIONS = ["function bodies come from a fixed library working on the numeric leaves of any nested argument structure (products, "
                "sums, element-wise maps, mixed tuples/lists/dicts of integer, boolean and fixed-point results, the same object returned "
-               "in several slots, plain returns, pass-through); arguments are random nestings of ints and dyadic floats in lists, "
+               "in several slots, the same list/tuple CONTAINER returned in several slots, the (converted) argument structure itself, "
+               "plain returns, pass-through); arguments are random nestings of ints and dyadic floats in lists, "
                "tuples and dicts; 1-3 wrapped calls per run on the real decorator, incl. calls refused for keyword arguments",
+               "shared sub-containers: in about a third of the calls a position of the argument structure may hold a reference to a "
+               "container built earlier in the same structure (the SAME Python object: f(v, v), [row, row], a dict reached twice); the "
+               "expected public vector is the full flattening with repetition. The model has no object identity: in NI/NO lines `@k` "
+               "is the same value again (for results: the same wires revealed again), which is what the unchanged code does",
+               "guarded calls: about a third of the calls are made inside guarded(c1) or guarded(c1)(guarded(c2)) of pysnark.runtime with "
+               "ci = PrivVal(g) or PrivValBool(g), g in {0,1}; the publics count/positions, the linking constraints and the "
+               "satisfaction of every recorded constraint are checked for every g; the returned plain values are compared with the "
+               "undecorated function only when all guards are 1 (under a guard of value 0 the body computes dummies by design; the "
+               "public outputs are then compared with the values the call returned). Half of the guarded runs are executed a second "
+               "time with other guard values and the per-call public layout of the two runs must be identical. NI/NO lines with a "
+               "guard prefix tie snarkIn/snarkOut inside guarded regions to the model (whole tracer state compared); theorem "
+               "C17_outputs_guarded / C17_outputs_any_guard. Calls in oblivious _if/_while/_for branches are not generated "
+               "(they set the same runtime.guard)",
                "Python bool arguments are not generated (they are ints to the decorator)"]
 PARTIAL = ["C17_inputs_single_kind: argument order is preserved when all numeric leaves are of one kind; with mixed int/float leaves the "
            "public inputs are grouped by type (finding C17-type-grouping); likewise for results of mixed kinds"]
-TEMPLATES = ["square", "sum", "each", "mixed", "twice", "fx", "fxmix", "plain", "passthrough"]
+TEMPLATES = ["square", "sum", "each", "mixed", "twice", "fx", "fxmix", "plain", "passthrough",
+             "echo", "sharedret", "sharedrows", "sharedtuple"]
+SHARED_RET = ("sharedret", "sharedrows", "sharedtuple")
 
 
-def gen_arg(rnd, depth, kinds):
+def gen_arg(rnd, depth, kinds, share=None):
+    """share: None, or [number of containers completed so far in this call's argument structure]: a position may then hold
+    ["ref", k], the k-th of them again (the same object)"""
+    if share is not None and share[0] > 0 and rnd.random() < 0.3:
+        return ["ref", rnd.randrange(share[0])]
     c = rnd.random()
-    if depth >= 2 or c < 0.55:
+    if depth >= 2 or c < (0.55 if share is None else 0.4 if share[0] else 0.25):
         if "f" in kinds and rnd.random() < 0.4:
             return ["f", rnd.randrange(-40, 41), rnd.choice([0, 1, 2])]
         return ["i", rnd.randrange(-9, 10)]
-    if c < 0.75: return ["l", [gen_arg(rnd, depth + 1, kinds) for _ in range(rnd.randrange(0, 4))]]
-    if c < 0.9: return ["t", [gen_arg(rnd, depth + 1, kinds) for _ in range(rnd.randrange(1, 3))]]
-    return ["d", {k: gen_arg(rnd, depth + 1, kinds) for k in rnd.sample(["a", "b", "c"], rnd.randrange(1, 3))}]
+    if c < 0.75: r = ["l", [gen_arg(rnd, depth + 1, kinds, share) for _ in range(rnd.randrange(0, 4))]]
+    elif c < 0.9: r = ["t", [gen_arg(rnd, depth + 1, kinds, share) for _ in range(rnd.randrange(1, 3))]]
+    else: r = ["d", {k: gen_arg(rnd, depth + 1, kinds, share) for k in rnd.sample(["a", "b", "c"], rnd.randrange(1, 3))}]
+    if share is not None: share[0] += 1
+    return r
+
+
+def expand(a, memo=None):
+    """the plain structure that a structure with shared sub-containers stands for (same order as the worker's `build`)"""
+    if memo is None: memo = []
+    if a[0] in ("i", "f"): return a
+    if a[0] == "ref": return memo[a[1]]
+    if a[0] in ("l", "t"): r = [a[0], [expand(x, memo) for x in a[1]]]
+    else: r = ["d", {k: expand(v, memo) for k, v in a[1].items()}]
+    memo.append(r)
+    return r
+
+
+def gen_guards(rnd):
+    return [[rnd.choice(["L", "L", "B"]), rnd.choice([0, 1])] for _ in range(1 if rnd.random() < 0.7 else 2)]
 
 
 def flat(a):
@@ -53,131 +90,220 @@ def same_shape_value(a, b):
     return va == vb
 
 
-def gen_struct(rnd, depth, leaves):
+def gen_struct(rnd, depth, leaves, share=None):
+    """share as in gen_arg; a reference is written `@k`"""
+    if share is not None and share[0] > 0 and rnd.random() < 0.3:
+        return f"@{rnd.randrange(share[0])}"
     c = rnd.random()
-    if depth >= 2 or c < 0.55:
+    if depth >= 2 or c < (0.55 if share is None else 0.4 if share[0] else 0.25):
         k = rnd.choice(leaves)
         if k == "i": return f"i:{rnd.randrange(-9, 10)}"
         if k == "f": return f"f:{rnd.randrange(-40, 41)}:{rnd.choice([0, 1, 2])}"
         if k == "L": return f"L:{rnd.randrange(-9, 10)}"
         if k == "B": return f"B:{rnd.choice([0, 1])}"
         return f"X:{rnd.randrange(-40, 41)}:{rnd.choice([0, 1, 2])}"
-    items = [gen_struct(rnd, depth + 1, leaves) for _ in range(rnd.randrange(0 if depth else 1, 4))]
+    items = [gen_struct(rnd, depth + 1, leaves, share) for _ in range(rnd.randrange(0 if depth else 1, 4))]
+    if share is not None: share[0] += 1
     if rnd.random() < 0.6:
         return "[" + ",".join(items) + "]"
     return "(" + ",".join(items) + ("," if False else "") + ")"
 
 
 def conversions(ctx, ex):
-    """model correspondence of the two conversions of the decorator"""
+    """model correspondence of the two conversions of the decorator, outside and inside guarded regions, with and without
+    shared sub-containers"""
     lines = []
     for i in range(ctx.n(600, 12000)):
         res = ctx.rnd.choice([8, 8, 4, 0])
+        share = [0] if ctx.rnd.random() < 0.5 else None
         if i % 2 == 0:
-            items = [gen_struct(ctx.rnd, 1, ["i", "i", "f"]) for _ in range(ctx.rnd.randrange(1, 4))]
-            lines.append(f"NI|ni{i}|{res}|(" + ",".join(items) + ")")
+            items = [gen_struct(ctx.rnd, 1, ["i", "i", "f"], share) for _ in range(ctx.rnd.randrange(1, 4))]
+            l = f"NI|ni{i}|{res}|(" + ",".join(items) + ")"
         else:
-            lines.append(f"NO|no{i}|{res}|" + gen_struct(ctx.rnd, 0, ["L", "L", "X", "B", "i"]))
+            l = f"NO|no{i}|{res}|" + gen_struct(ctx.rnd, 0, ["L", "L", "X", "B", "i"], share)
+        if ctx.rnd.random() < 0.25:
+            l += "|" + ",".join(f"{k}:{g}" for k, g in gen_guards(ctx.rnd))
+        lines.append(l)
     py = common.run_workers(lines, script="worker_snark.py")
     ml = common.lean_driver(lines)
     for l, a, b in zip(lines, py, ml):
         ex.evaluations += 1
         ex.distinct.add(("conv", l.split("|", 2)[2]))
-        ex.count("conv:" + l.split("|")[0])
+        f = l.split("|")
+        ex.count("conv:" + f[0] + (":shared" if "@" in f[3] else "") + (":guarded" if len(f) > 4 else ""))
         if a != b:
             ex.disagreements.append({"line": l, "impl": a[:300], "model": b[:300]})
         else:
             ex.traces_validated += 1
 
 
+def judge_run(run, d, ex):
+    """the direct oracle on one executed run (`d`: what the worker observed)"""
+    res = run["res"]
+    for c, rec in zip(run["calls"], d["calls"]):
+        leaves = list(flat(expand(["t", c["args"]])))
+        kinds = {x[0] for x in leaves}
+        guards = c.get("guards", [])
+        gstr = "".join(str(g) for _, g in guards) or "no"
+        transparent = all(g == 1 for _, g in guards)      # every enclosing guard is on: the call behaves as outside
+        shared_args = '"ref"' in json.dumps(c["args"])
+        sharing = shared_args or c["template"] in SHARED_RET
+        ex.distinct.add((c["template"], json.dumps(c["args"]), gstr))
+        ex.count(f"template:{c['template']}"); ex.count("argkinds:" + "".join(sorted(kinds)))
+        ex.count("guarded:" + gstr); ex.count("sharing:" + ("args" if shared_args else "ret" if sharing else "no"))
+        sig = {"template": c["template"], "argkinds": "".join(sorted(kinds)), "kwargs": bool(c["kwargs"]),
+               "sharing": sharing, "guarded": gstr}
+        rep = {"run": run, "call": c, "observed": rec}
+        if rec.get("pubs_around"):
+            ex.violations.append(Violation(dict(sig, dev="extra-publics"),
+                                           f"{rec['pubs_around']} public value(s) created around the wrapped call, outside its window", rep))
+        if c["kwargs"]:
+            if rec["status"] != "ValueError":
+                ex.violations.append(Violation(dict(sig, dev="kwargs-accepted"), f"keyword arguments: {rec['status']}", rep))
+            if rec["pubs"] or rec["npriv"]:
+                ex.violations.append(Violation(dict(sig, dev="refused-call-leaks"),
+                                               f"a call refused for keyword arguments still published {rec['pubs']}", rep))
+            continue
+        if rec["status"] != "ok":
+            if rec["plain"][0] != "!":
+                ex.violations.append(Violation(dict(sig, dev="raises", error=rec["status"]), f"wrapped call raises {rec['status']}", rep))
+            continue
+        ex.traces_validated += 1
+        want_in = [x[1] if x[0] == "i" else int(Fraction(x[1], 2 ** x[2]) * (1 << res)) for x in leaves]
+        rl = list(ret_leaves(rec["ret"]))
+        if rec["plain"][0] == "!":
+            continue
+        # under a guard of value 0 the body computes dummies: the outputs are then the values the call RETURNED
+        pl = list(ret_leaves(rec["plain"] if transparent else rec["ret"]))
+        nsecret_out = len(rec["pubs"]) - len(want_in)
+        got_in = rec["pubs"][:len(want_in)]
+        inputs_wrong = sorted(got_in) != sorted(want_in) or nsecret_out < 0
+        if inputs_wrong:
+            ex.violations.append(Violation(dict(sig, dev="inputs-wrong"),
+                                           f"public values of the call {rec['pubs']}: the inputs are not the argument leaves {want_in}", rep))
+        elif got_in != want_in:
+            ex.violations.append(Violation(dict(sig, dev="inputs-order"),
+                                           f"public inputs {got_in} are not in argument order {want_in}", rep))
+        # outputs: one public wire per secret result leaf (kinds from a probe run of the body on secret arguments)
+        rk = rec.get("retkinds")
+        if rk is None:
+            continue
+        if inputs_wrong:
+            # where the outputs start is then unknown: only the position-independent checks remain
+            if transparent and not same_shape_value(rec["ret"], rec["plain"]):
+                ex.violations.append(Violation(dict(sig, dev="return-differs"),
+                                               f"returned {json.dumps(rec['ret'])[:100]}, undecorated function gives {json.dumps(rec['plain'])[:100]}", rep))
+            if rec["unsat"]:
+                ex.violations.append(Violation(dict(sig, dev="unsatisfied"), "a constraint of the wrapped call is not satisfied", rep))
+            continue
+        expected_secret = len([k for k in rk if k != "-"])
+        sig["retkinds"] = "".join(sorted(set(k for k in rk if k != "-")))
+        if nsecret_out >= 0 and nsecret_out != expected_secret:
+            ex.violations.append(Violation(dict(sig, dev="outputs-count"),
+                                           f"{nsecret_out} public outputs for {expected_secret} secret result leaves", rep))
+        elif nsecret_out >= 0:
+            # values: each secret result leaf appears among the outputs; in result order when all are of one kind
+            vals = [pl[i] for i, k in enumerate(rk) if k != "-"] if len(pl) == len(rk) else None
+            if vals is not None:
+                want_out = [(v[1] if v[0] == "i" else int(Fraction(v[1], v[2]) * (1 << res))) for v in vals]
+                got_out = rec["pubs"][len(want_in):]
+                if sorted(got_out) != sorted(want_out):
+                    ex.violations.append(Violation(dict(sig, dev="outputs-wrong"), f"public outputs {got_out}, secret results {want_out}", rep))
+                elif got_out != want_out:
+                    ex.violations.append(Violation(dict(sig, dev="outputs-order"),
+                                                   f"public outputs {got_out} are not in result order {want_out}", rep))
+        outs_idx = list(range(len(want_in), len(rec["pubs"])))
+        if sorted(rec["links"]) != outs_idx:
+            ex.violations.append(Violation(dict(sig, dev="outputs-not-tied"),
+                                           f"public outputs at positions {outs_idx}, linking constraints for {sorted(rec['links'])}", rep))
+        if transparent and not same_shape_value(rec["ret"], rec["plain"]):
+            ex.violations.append(Violation(dict(sig, dev="return-differs"),
+                                           f"returned {json.dumps(rec['ret'])[:100]}, undecorated function gives {json.dumps(rec['plain'])[:100]}", rep))
+        if rec["unsat"]:
+            ex.violations.append(Violation(dict(sig, dev="unsatisfied"), "a constraint of the wrapped call is not satisfied", rep))
+
+
+def judge_twins(run_a, run_b, da, db, ex):
+    """the same program under other guard values: same number of public values per call"""
+    la = [len(r["pubs"]) for r in da["calls"]]
+    lb = [len(r["pubs"]) for r in db["calls"]]
+    ex.count("twin-runs")
+    if la != lb:
+        k = next(x for x in range(len(la)) if la[x] != lb[x])
+        ca, cb = run_a["calls"][k], run_b["calls"][k]
+        ga, gb = ("".join(str(g) for _, g in c.get("guards", [])) or "no" for c in (ca, cb))
+        ex.violations.append(Violation({"dev": "layout-depends-on-guard", "template": ca["template"], "kwargs": bool(ca["kwargs"]),
+                                        "guarded": f"{ga}/{gb}"},
+                                       f"public values per call {la} with guards {ga}, {lb} with guards {gb}: the layout depends on the guard",
+                                       {"run": run_a, "twin": run_b, "layout": la, "twin_layout": lb}))
+
 def explore(ctx, extended=False, focus=None):
     ex = Exploration()
     ex.rule = ("runs of 1-3 wrapped calls (see assumptions); per call: public values added = argument leaves then result leaves; every "
                "result leaf tied to a fresh public wire by a 0*0 = r - o constraint; returned plain structure = undecorated function on "
-               "the plain arguments; keyword arguments refused without side effects; distinct = distinct (template, argument structure)")
+               "the plain arguments (when no enclosing guard is 0); keyword arguments refused without side effects; the same holds for "
+               "arguments/results with shared sub-containers (full flattening with repetition) and for calls made inside guarded "
+               "regions, whose per-call number of public values must not depend on the guard values (twin runs); "
+               "distinct = distinct (template, argument structure, guard values)")
     conversions(ctx, ex)
     n = ctx.n(1200, 24000) * (2 if extended else 1)
     runs = []
+    twins = {}          # index of a twin run -> index of the run it repeats with other guard values
     for i in range(n):
         calls = []
         for _ in range(ctx.rnd.randrange(1, 4)):
             t = ctx.rnd.choice(TEMPLATES)
             kinds = "if" if t in ("fx", "fxmix", "passthrough") and ctx.rnd.random() < 0.8 else "i"
-            args = [gen_arg(ctx.rnd, 0, kinds) for _ in range(ctx.rnd.randrange(1, 4))]
-            calls.append({"template": t, "args": args, "kwargs": ctx.rnd.random() < 0.08})
-        runs.append({"res": ctx.rnd.choice([8, 8, 4]), "calls": calls})
+            share = [0] if ctx.rnd.random() < 0.35 else None
+            args = [gen_arg(ctx.rnd, 0, kinds, share) for _ in range(ctx.rnd.randrange(1, 4))]
+            call = {"template": t, "args": args, "kwargs": ctx.rnd.random() < 0.08}
+            if ctx.rnd.random() < 0.3:
+                call["guards"] = gen_guards(ctx.rnd)
+            calls.append(call)
+        run = {"res": ctx.rnd.choice([8, 8, 4]), "calls": calls}
+        runs.append(run)
+        if any("guards" in c for c in calls) and ctx.rnd.random() < 0.5:
+            # the same program with other guard values: the public layout must be the same
+            twin = json.loads(json.dumps(run))
+            while twin == run:
+                for c in twin["calls"]:
+                    for g in c.get("guards", []):
+                        g[1] = ctx.rnd.choice([0, 1])
+            twins[len(runs)] = len(runs) - 1
+            runs.append(twin)
     outs = common.run_workers([f"N|n{i}|{json.dumps(r)}" for i, r in enumerate(runs)], script="worker_snark.py")
+    parsed = []
     for run, o in zip(runs, outs):
         ex.evaluations += 1
         d = json.loads(o.split("|", 1)[1])
         if "harness-error" in d:
             raise common.Infra(str(d))
-        res = run["res"]
-        for c, rec in zip(run["calls"], d["calls"]):
-            leaves = list(flat(["t", c["args"]]))
-            kinds = {x[0] for x in leaves}
-            ex.distinct.add((c["template"], json.dumps(c["args"])))
-            ex.count(f"template:{c['template']}"); ex.count("argkinds:" + "".join(sorted(kinds)))
-            sig = {"template": c["template"], "argkinds": "".join(sorted(kinds)), "kwargs": bool(c["kwargs"])}
-            rep = {"run": run, "call": c, "observed": rec}
-            if c["kwargs"]:
-                if rec["status"] != "ValueError":
-                    ex.violations.append(Violation(dict(sig, dev="kwargs-accepted"), f"keyword arguments: {rec['status']}", rep))
-                if rec["pubs"] or rec["npriv"]:
-                    ex.violations.append(Violation(dict(sig, dev="refused-call-leaks"),
-                                                   f"a call refused for keyword arguments still published {rec['pubs']}", rep))
-                continue
-            if rec["status"] != "ok":
-                if rec["plain"][0] != "!":
-                    ex.violations.append(Violation(dict(sig, dev="raises", error=rec["status"]), f"wrapped call raises {rec['status']}", rep))
-                continue
-            ex.traces_validated += 1
-            want_in = [x[1] if x[0] == "i" else int(Fraction(x[1], 2 ** x[2]) * (1 << res)) for x in leaves]
-            rl = list(ret_leaves(rec["ret"]))
-            if rec["plain"][0] == "!":
-                continue
-            pl = list(ret_leaves(rec["plain"]))
-            nsecret_out = len(rec["pubs"]) - len(want_in)
-            got_in = rec["pubs"][:len(want_in)]
-            if sorted(got_in) != sorted(want_in) or nsecret_out < 0:
-                ex.violations.append(Violation(dict(sig, dev="inputs-wrong"), f"public inputs {got_in}, argument leaves {want_in}", rep))
-            elif got_in != want_in:
-                ex.violations.append(Violation(dict(sig, dev="inputs-order"),
-                                               f"public inputs {got_in} are not in argument order {want_in}", rep))
-            # outputs: one public wire per secret result leaf (kinds from a probe run of the body on secret arguments)
-            rk = rec.get("retkinds")
-            if rk is None:
-                continue
-            expected_secret = len([k for k in rk if k != "-"])
-            sig["retkinds"] = "".join(sorted(set(k for k in rk if k != "-")))
-            if nsecret_out >= 0 and nsecret_out != expected_secret:
-                ex.violations.append(Violation(dict(sig, dev="outputs-count"),
-                                               f"{nsecret_out} public outputs for {expected_secret} secret result leaves", rep))
-            elif nsecret_out >= 0:
-                # values: each secret result leaf appears among the outputs; in result order when all are of one kind
-                vals = [pl[i] for i, k in enumerate(rk) if k != "-"] if len(pl) == len(rk) else None
-                if vals is not None:
-                    want_out = [(v[1] if v[0] == "i" else int(Fraction(v[1], v[2]) * (1 << res))) for v in vals]
-                    got_out = rec["pubs"][len(want_in):]
-                    if sorted(got_out) != sorted(want_out):
-                        ex.violations.append(Violation(dict(sig, dev="outputs-wrong"), f"public outputs {got_out}, secret results {want_out}", rep))
-                    elif got_out != want_out:
-                        ex.violations.append(Violation(dict(sig, dev="outputs-order"),
-                                                       f"public outputs {got_out} are not in result order {want_out}", rep))
-            outs_idx = list(range(len(want_in), len(rec["pubs"])))
-            if sorted(rec["links"]) != outs_idx:
-                ex.violations.append(Violation(dict(sig, dev="outputs-not-tied"),
-                                               f"public outputs at positions {outs_idx}, linking constraints for {sorted(rec['links'])}", rep))
-            if not same_shape_value(rec["ret"], rec["plain"]):
-                ex.violations.append(Violation(dict(sig, dev="return-differs"),
-                                               f"returned {json.dumps(rec['ret'])[:100]}, undecorated function gives {json.dumps(rec['plain'])[:100]}", rep))
-            if rec["unsat"]:
-                ex.violations.append(Violation(dict(sig, dev="unsatisfied"), "a constraint of the wrapped call is not satisfied", rep))
-        if len(ex.samples) < 4:
+        parsed.append(d)
+        judge_run(run, d, ex)
+        if len(ex.samples) < 4 or (len(ex.samples) < 8 and any("guards" in c or '"ref"' in json.dumps(c["args"]) for c in run["calls"])):
             ex.samples.append(run)
+    for j, i in twins.items():
+        judge_twins(runs[i], runs[j], parsed[i], parsed[j], ex)
     return ex
 
 
 def replay(ctx, payload):
-    print(common.run_workers([f"N|r|{json.dumps(payload['replay']['run'])}"], script="worker_snark.py")[0][:3000])
+    """re-execute the recorded run (and its twin) on the real code, print what is observed and what the oracle says"""
+    rp = payload["replay"]
+    ex = Exploration()
+    o = common.run_workers([f"N|r|{json.dumps(rp['run'])}"], script="worker_snark.py")[0]
+    print(o[:3000])
+    d = json.loads(o.split("|", 1)[1])
+    if "harness-error" not in d:
+        judge_run(rp["run"], d, ex)
+    if "twin" in rp:
+        o2 = common.run_workers([f"N|twin|{json.dumps(rp['twin'])}"], script="worker_snark.py")[0]
+        print(o2[:3000])
+        d2 = json.loads(o2.split("|", 1)[1])
+        if "harness-error" not in d and "harness-error" not in d2:
+            judge_twins(rp["run"], rp["twin"], d, d2, ex)
+    for v in ex.violations:
+        print("reproduced:" if v.signature.get("dev") == payload.get("signature", {}).get("dev") else "also:", json.dumps(v.signature), v.what)
+    if not ex.violations:
+        print("not reproduced on this tree")
     return 0
